@@ -32,7 +32,7 @@ func alphabet() []hx.Op {
 	p1 := map[string]any{"p": 1.0}
 	return []hx.Op{
 		{K: hx.VLink, I: "i", ID: "a", ID2: "b", S: "r", W: 1},
-		{K: hx.VLink, I: "i", ID: "a", ID2: "b", S: "r", W: 2},
+		{K: hx.VLink, I: "i", ID: "a", ID2: "b", S: "r", W: 0.8734567}, // a weight that needs all float32 digits
 		{K: hx.VLink, I: "i", ID: "a", ID2: "b", S: "r", W: 1, M: p1},
 		{K: hx.VLink, I: "i", ID: "a", ID2: "b", S: "r", S2: "q", W: 1},
 		{K: hx.VLink, I: "i", ID: "b", ID2: "a", S: "r", W: 0},
